@@ -185,4 +185,6 @@ var corpus = []string{
 	`{"kind":"sess","recv":false,"s2s":false,"ws":false,"lang_hex":"","local":"me@example.net","remote":"example.net","headers":["3c73747265616d3a73747265616d20786d6c6e733d276a61626265723a636c69656e742720786d6c6e733a73747265616d3d27687474703a2f2f6574686572782e6a61626265722e6f72672f73747265616d73272066726f6d3d276578616d706c652e6e65742720746f3d27272076657273696f6e3d27312e30272069643d2778273e"]}`,
 	// the default bind without any address for the peer
 	`{"kind":"binds","s2s":false,"request_hex":"3c697120747970653d27736574272069643d2731273e3c62696e6420786d6c6e733d2775726e3a696574663a706172616d733a786d6c3a6e733a786d70702d62696e64273e3c7265736f757263653e783c2f7265736f757263653e3c2f62696e643e3c2f69713e","verdict":"default"}`,
+	// (false alarm once) two "to" attributes, the last one empty: the last one counts
+	`{"kind":"sess","recv":true,"s2s":false,"ws":false,"lang_hex":"656e","headers":["3c3f786d6c2076657273696f6e3d22312e302220656e636f64696e673d225554462d38223f3e3c73747265616d3a73747265616d2020746f3d22622220786d6c6e733a73747265616d3d22687474703a2f2f6574686572782e6a61626265722e6f72672f73747265616d7322202076657273696f6e3d22312e30222066726f6d3d2775736572406dc3bc6e6368656e2e6578616d706c6527202069643d2735366338646635392720746f3d27272020786d6c6e733d226a61626265723a736572766572223e"]}`,
 }
